@@ -38,6 +38,9 @@ func (w *World) setInlineBudget(n int) {
 }
 
 func (w *World) inPkgs(fn *ssa.Function) bool {
+	if fn != nil && fn.Pkg == nil && fn.Origin() != nil {
+		fn = fn.Origin() // an instantiation of a generic function of the analysed packages
+	}
 	return fn != nil && fn.Pkg != nil && (fn.Pkg == w.SLib || fn.Pkg == w.SCmd)
 }
 
@@ -154,7 +157,7 @@ func (w *World) inlinable(fn *ssa.Function) bool {
 }
 
 func (w *World) inlinable0(fn *ssa.Function) bool {
-	if w.NoInline || !w.inPkgs(fn) || len(fn.Blocks) == 0 || fn.Parent() != nil || fn.Synthetic != "" {
+	if w.NoInline || !w.inPkgs(fn) || len(fn.Blocks) == 0 || fn.Parent() != nil || (fn.Synthetic != "" && fn.Origin() == nil) {
 		return false
 	}
 	if ast.IsExported(fn.Name()) || fn.Name() == "main" || fn.Name() == "init" || w.boundary[fn] != "" || w.recursive[fn] {
